@@ -244,6 +244,7 @@ func main() {
 	results := make([]shardResult, len(jobs))
 	var wg sync.WaitGroup
 	sem := make(chan struct{}, par)
+	var acquire sync.Mutex
 	for i, j := range jobs {
 		wg.Add(1)
 		go func(i int, j job) {
@@ -255,9 +256,13 @@ func main() {
 			if w > par {
 				w = par
 			}
+			// one goroutine acquires at a time: two weighted units each holding part of
+			// what they need while waiting for the rest would block each other for good
+			acquire.Lock()
 			for k := 0; k < w; k++ {
 				sem <- struct{}{}
 			}
+			acquire.Unlock()
 			defer func() {
 				for k := 0; k < w; k++ {
 					<-sem
